@@ -202,3 +202,8 @@ impl Drop for ExecSpan {
         });
     }
 }
+
+/// the execution tree the engine builds from a model (see `scheduler::verif_tree`)
+pub fn tree(model: &crate::Workflow) -> serde_json::Value {
+    crate::scheduler::verif_tree(model)
+}
